@@ -834,7 +834,12 @@ def usage_scan():
         ("reports", "handle_reports.__init__", "self.is_error_condition"), ("reports", "handle_reports.__exit__", "self.is_error_condition"),
         ("reports", "emit_report", "handler.is_error_condition"),
     }
+    flag_reads = []
     for (m, q, text, ctx, line, parent) in findings["state"]:
+        if text.endswith(".is_awaiting") and ctx == "Load" and m == "deferred" and q and (m, q, text) not in allowed_state:
+            # the flag may be *read* by the evaluation code of deferred.py (modelled as PIfAwaiting); writes stay confined
+            flag_reads.append(f"{q}:{line}")
+            continue
         need((m, q, text) in allowed_state, f"usage scan: {m}.py:{line}: {text} is accessed in {q or 'module level'}")
         if q in ("not_ready", "emit_report") and "is_error_condition" not in text:
             need(ctx == "Load", f"usage scan: {m}.py:{line}: {text} is written in {q}")
@@ -899,7 +904,8 @@ def usage_scan():
     return [f"run-time writers of module-level objects: exactly {len(STATE_WRITERS)} (the three context managers and Deferred.__init__'s name counter);",
             "Deferred.next_instance_id feeds only the default name of a deferred object; deferred.py reads names only in __repr__;",
             f"import-time registrars {sorted(f for _, f in IMPORT_TIME_FUNCS)} referenced {len(refs_ok)} times, always at module level;",
-            f"state attributes {sorted(STATE_ATTRS)} accessed at {len(findings['state'])} places, all inside the owning classes, not_ready, emit_report;",
+            f"state attributes {sorted(STATE_ATTRS)} accessed at {len(findings['state'])} places, all inside the owning classes, not_ready, emit_report"
+            + (f", plus read-only uses of is_awaiting in deferred.py at {', '.join(flag_reads)};" if flag_reads else ";"),
             f"with items: try_compute x{n_with['TryCompute']}, Awaiting(...) x{n_with['Awaiting']}, handle_reports(...) x{n_with['handle_reports']}; no other use of the classes."]
 
 
